@@ -59,7 +59,7 @@ static Verdict c02_quantity(const Case& c) {
   };
   for (int i = 0; i < n; i++) {
     ref[i] = R->convert_scalar(v[i], u, R->standard);
-    if (!normal_or_zero(nt, ref[i]) || !normal_or_zero(nt, v[i])) { skipped++; continue; }
+    if (!normal_or_zero(nt, ref[i]) || !normal_or_zero(nt, v[i]) || (ref[i] == 0 && v[i] != 0)) { skipped++; ref[i] = std::numeric_limits<LD>::quiet_NaN(); continue; }   // conversion leaves the normal range (overflow, underflow to zero)
     slots++;
     if (same_bits(nt, stored[i], ref[i])) bitequal++;
     double e = err_ulps(nt, stored[i], (Q)ref[i], (Q)ref[i]);
@@ -86,7 +86,7 @@ static Verdict c02_quantity(const Case& c) {
   }
   // read in another unit: run-time, compile-time, and the four text forms
   LD ref2[9]; bool ok2[9];
-  for (int i = 0; i < n; i++) { ref2[i] = R->convert_scalar(stored[i], R->standard, u2); ok2[i] = normal_or_zero(nt, stored[i]) && normal_or_zero(nt, ref2[i]) && std::isfinite(stored[i]); }
+  for (int i = 0; i < n; i++) { ref2[i] = R->convert_scalar(stored[i], R->standard, u2); ok2[i] = normal_or_zero(nt, stored[i]) && normal_or_zero(nt, ref2[i]) && std::isfinite(stored[i]) && !(ref2[i] == 0 && stored[i] != 0) && !std::isnan(ref[i]); }
   R->value_unit(stored, u2, out);
   for (int i = 0; i < n; i++) if (ok2[i]) { double e = err_ulps(nt, out[i], (Q)ref2[i], (Q)ref2[i]); if (e > kOneUlp) return fail("Value(unit)", i, out[i], ref2[i], e, kOneUlp); }
   R->static_value(stored, u2, out);
@@ -520,7 +520,8 @@ int main(int argc, char** argv) {
     s.gen = [](int inst) {
       const int nd = (int)g_dimensional.size(); const int q = g_dimensional[(size_t)(inst % nd)], nt = inst / nd;
       const VfQuantity* R = row(nt, q);
-      return rc::gen::map(rc::gen::tuple(irange(0, R->n_units - 1), irange(0, R->n_units - 1), gen_reals(R->ncomp, nt, -win(nt), win(nt), kNeg | kZero)),
+      const int ww = nt == 0 ? 60 : nt == 1 ? 900 : 12000;   // slots whose conversion leaves the normal range are skipped one by one
+      return rc::gen::map(rc::gen::tuple(irange(0, R->n_units - 1), irange(0, R->n_units - 1), rc::gen::oneOf(gen_reals(R->ncomp, nt, -win(nt), win(nt), kNeg | kZero), gen_reals(R->ncomp, nt, -ww, ww, kNeg | kZero))),
                           [=](const std::tuple<int, int, std::vector<LD>>& t) { Case c; c.i = {q, nt, std::get<0>(t), std::get<1>(t)}; c.r = std::get<2>(t); return c; });
     };
     s.run = c02_quantity;
